@@ -158,6 +158,44 @@ func (y *c06Sys) checkGroupsAPI() *violation {
 	if f(got) != f(want) {
 		return &violation{"api-groups-differ-from-partition", fmt.Sprintf("GET /alerts/groups: %s ; expected partition: %s", f(got), f(want))}
 	}
+	// C07: the receivers GET /alerts shows for an alert are those of its places, in route order, and the
+	// receiver filter selects by them
+	byName := map[string]c06Alert{}
+	for _, a := range y.alerts {
+		byName[a.name] = a
+	}
+	_, al := x.f.getAlerts("")
+	for _, a := range al {
+		var gotR, wantR []string
+		for _, r := range a.Receivers {
+			gotR = append(gotR, r.Name)
+		}
+		for _, p := range byName[a.Labels["alertname"]].places {
+			wantR = append(wantR, p.recv)
+		}
+		if strings.Join(gotR, ",") != strings.Join(wantR, ",") {
+			return &violation{"api-receivers-differ-from-routing", fmt.Sprintf("GET /alerts shows %s with receivers %v, routing sends it to %v", a.Labels["alertname"], gotR, wantR)}
+		}
+	}
+	for _, recv := range []string{"r3", "r4"} {
+		_, fl := x.f.getAlerts("?receiver=" + recv)
+		var gotN, wantN []string
+		for _, a := range fl {
+			gotN = append(gotN, a.Labels["alertname"])
+		}
+		for _, a := range al {
+			for _, p := range byName[a.Labels["alertname"]].places {
+				if p.recv == recv {
+					wantN = append(wantN, a.Labels["alertname"])
+				}
+			}
+		}
+		sort.Strings(gotN)
+		sort.Strings(wantN)
+		if strings.Join(gotN, ",") != strings.Join(wantN, ",") {
+			return &violation{"api-receiver-filter-differs-from-routing", fmt.Sprintf("GET /alerts?receiver=%s returns %v, routing sends %v there", recv, gotN, wantN)}
+		}
+	}
 	return nil
 }
 
